@@ -53,7 +53,8 @@ Nearest(m) == LET f == Floor(m) IN
               IF Dist(m, f) < Dist(m, f + 1) THEN {f} ELSE IF Dist(m, f) > Dist(m, f + 1) THEN {f + 1} ELSE {f, f + 1}
 LTInA(m, r) == 20 * Dist(m, r) <= r * U             \* |m - r| <= 0.05 r
 LTInB(m, r) == 20 * Dist(m, r) <= m                 \* |m - r| <= 0.05 m
-LTEdge(m, r) == 20 * Dist(m, r) = r * U \/ 20 * Dist(m, r) = m
+\* exactly on a window edge (either outcome is admitted there) - but a measurement that IS the integer lies on no edge
+LTEdge(m, r) == Dist(m, r) > 0 /\ (20 * Dist(m, r) = r * U \/ 20 * Dist(m, r) = m)
 Code(r) == IF r = 0 THEN ZeroLT ELSE r
 SnapLT(m) == IF m < 0 \/ m > LTMax THEN 0
              ELSE LET r == MinOf(Nearest(m)) IN IF LTInA(m, r) THEN Code(r) ELSE 0
